@@ -173,7 +173,9 @@ def run(pid, tier, seed):
     with Scratch(pid) as sc:
         sts = stamps(rng, tier)
         nots = notations()
-        fallbacks = [("+00:00", 0), ("-08:00", -480), ("+05:30", 330)] if tier == "thorough" else [("+00:00", 0), ("+05:30", 330)]
+        # fallback zones: UTC, half-hour east, far west, and offsets strictly between -01:00 and 00:00 (sign without hours)
+        fallbacks = ([("+00:00", 0), ("-08:00", -480), ("+05:30", 330), ("-00:45", -45), ("-00:15", -15), ("+00:30", 30), ("+13:45", 825)] if tier == "thorough"
+                     else [("+00:00", 0), ("+05:30", 330), ("-00:45", -45)])
         # ---- specification's answer (TLC) on a sample, and the oracle self-test
         sample = rng.sample(sts, min(len(sts), 400 if tier == "quick" else 4000))
         sj = []
